@@ -155,25 +155,30 @@ Definition exact_view (w : node) (vp : path) (c : call) : bool :=
                            && match get w (snd e) with Some (Dir _) => true | _ => false end) i
   end.
 
-Definition holds_C17 (k : case_C17) : bool :=
-  let c := k_call k in
+(* the oracle proper, on the components of an observation *)
+Definition holds_core (pre : node) (c : call) (sprefix : path) (accepted : bool) (post : node)
+           (res2 : option exn) (ops2_zero : bool) (post2 : node) (res3 : option exn) (post3 : node) : bool :=
   let vp := vprefix c (c_prefix c) in
-  let sp := vprefix c (k_sprefix k) in
-  if negb (pre_ok (k_pre k) vp) then true else
-  match k_res k with
-  | Err _ =>
-      (* rejected: nothing may have changed, and the input must really be unrepresentable *)
-      node_eqb (k_pre k) (k_post k) && negb (representable c)
-      && match k_res3 k with Some _ => true | None => false end
-  | Ok _ =>
+  let sp := vprefix c sprefix in
+  if negb (pre_ok pre vp) then true else
+  if accepted then
       negb (existsb (fun j => existsb has_sep (j_items j)) (c_jobs c))     (* separators must be rejected *)
-      && exact_view (k_post k) vp c
-      && node_eqb (upd (k_pre k) vp None) (upd (k_post k) vp None)          (* nothing else touched *)
-      && oexn_eqb (k_res2 k) None && N.eqb (k_ops2 k) 0 && node_eqb (k_post2 k) (k_post k)   (* no-op  *)
-      && oexn_eqb (k_res3 k) None                                             (* = from scratch *)
-      && onode_eqb (get (k_post3 k) sp) (get (k_post k) vp)
-      && node_eqb (upd (k_post3 k) sp None) (upd (k_post2 k) sp None)
-  end.
+      && exact_view post vp c
+      && node_eqb (upd pre vp None) (upd post vp None)                     (* nothing else touched   *)
+      && oexn_eqb res2 None && ops2_zero && node_eqb post2 post            (* running twice: a no-op *)
+      && oexn_eqb res3 None                                                (* = from scratch         *)
+      && onode_eqb (get post3 sp) (get post vp)
+      && node_eqb (upd post3 sp None) (upd post2 sp None)
+  else
+      (* rejected: nothing may have changed, and the input must really be unrepresentable *)
+      node_eqb pre post && negb (representable c)
+      && match res3 with Some _ => true | None => false end.
+
+Definition is_ok {A} (r : result A) : bool := match r with Ok _ => true | Err _ => false end.
+
+Definition holds_C17 (k : case_C17) : bool :=
+  holds_core (k_pre k) (k_call k) (k_sprefix k) (is_ok (k_res k)) (k_post k)
+             (k_res2 k) (N.eqb (k_ops2 k) 0) (k_post2 k) (k_res3 k) (k_post3 k).
 
 Definition violation_C17 (k : case_C17) : bool := negb (holds_C17 k).
 
